@@ -160,10 +160,14 @@ class Gen:
         return n
 
     def ref(self):
-        """`${q}` to a question outside every repeat (absolute path from anywhere)."""
-        if not self.top_questions:
+        """`${q}` to a question seen so far, outside or inside repeats (absolute or relative replacement)."""
+        pool = list(self.top_questions)
+        if self.repeat_questions and self.rng.random() < 0.5:
+            # targets inside repeats: relative (`../x`, `current()/../x`) when referrer and target share a repeat
+            pool += self.repeat_questions
+        if not pool:
             return None
-        return "${%s}" % self.rng.choice(self.top_questions)
+        return "${%s}" % self.rng.choice(pool)
 
     def pulldata(self):
         rng = self.rng
@@ -213,7 +217,7 @@ class Gen:
         static_lists = list(self.lists)
         if v in ("static", "search") and not static_lists:
             v = "file"
-        if v == "repeat" and (in_repeat or not self.repeat_questions):
+        if v == "repeat" and not self.repeat_questions:
             v = "file"
         if v == "external" and not (self.ext_lists and self.top_questions):
             v = "file"
@@ -261,9 +265,9 @@ class Gen:
                 row["choice_filter"] = self.choice_filter()
             if rng.random() < 0.4 and "_from_file" in cmd:
                 if rng.random() < 0.7:
-                    p["value"] = rng.choice(["v", "id", "code", "my-val", "a.b"])
+                    p["value"] = rng.choice(["v", "id", "code", "my-val", "a.b", "Code", "ID_2", "camelCase"])
                 if rng.random() < 0.7:
-                    p["label"] = rng.choice(["l", "title", "lbl", "name"])
+                    p["label"] = rng.choice(["l", "title", "lbl", "name", "Title", "nameEN"])
             if rng.random() < 0.25:
                 p["randomize"] = "true"
                 if rng.random() < 0.5:
